@@ -43,7 +43,10 @@ def conc_script(rng, sid, K, per, policy, wrap=False, flush_ms=0, feeder=True, n
     # drive to completion: clear stalls, expire budgets, touch every node, flush
     for a in [[], [1], [2], [1, 1]]:
         line, _ = g.up_line(a, 0x8e, [0]); s.add(line, {"e": "wcmd"})
-    for _ in range(8):
+    # every round lets all outstanding requests expire and hands over at least one held message per node: as many rounds as
+    # messages were submitted always suffice (with 8 fixed rounds a 16-thread session could end with messages still held -
+    # refused at the end event although the library was right)
+    for _ in range(max(8, K * per + 2)):
         s.add("tick 2", {"e": "wcmd"})
         for a in [[], [1], [2], [1, 1]]:
             line, _ = g.up_line(a, 0xa0, [0]); s.add(line, {"e": "wcmd"})
